@@ -217,7 +217,15 @@ func recordUtils(out *ndjson, rnd interface {
 					"res": newResult(h.fn, desc, q), "share": pairs(h.divide(desc, q))})
 			}
 		}
-		for _, m := range []uint{0, 1, maxQ / 2, maxQ} {
+		ms := []uint{0, 1, maxQ / 2, maxQ}
+		sum := uint(0)
+		for _, p := range desc {
+			sum += p
+		}
+		for m := sum; m < maxQ && len(desc) >= 4; m++ { // every bound from the sum of the priorities upwards (sets of small values)
+			ms = append(ms, m)
+		}
+		for _, m := range ms {
 			out.put(map[string]any{"k": "pick", "ver": h.ver, "fn": h.fn, "which": "min", "ps": given, "max": m, "res": h.minNF(given, m), "nf": nf[:m]})
 			out.put(map[string]any{"k": "pick", "ver": h.ver, "fn": h.fn, "which": "max", "ps": given, "max": m, "res": h.maxNF(given, m), "nf": nf[:m]})
 		}
@@ -258,6 +266,29 @@ func TestRecordUtils(t *testing.T) {
 		q  uint
 	}{{[]uint{53, 43, 29, 13, 3}, 30}, {[]uint{7, 5, 3, 1}, 10}, {[]uint{45, 35, 25, 15, 6, 4}, 14}, {[]uint{83, 51, 30, 28, 10}, 12}} {
 		recordUtils(out, rnd, fc.ps, fc.q, true)
+	}
+	// 5 and 6 priorities of small values, bounds from their sum to a little above it (quantities around the sum are where a subset
+	// can starve although the full list is served)
+	small := [][]uint{{8, 4, 3, 2, 1}, {9, 5, 4, 2, 1}, {12, 7, 5, 3, 2, 1}}
+	for it := 0; it < envInt("UTL_RANDOM", 12)/3; it++ {
+		k := 5 + rnd.Intn(2)
+		set := map[uint]bool{}
+		for len(set) < k {
+			set[1+uint(rnd.Intn(12))] = true
+		}
+		var u []uint
+		for p := range set {
+			u = append(u, p)
+		}
+		all := descLists(u, k)
+		small = append(small, all[len(all)-1])
+	}
+	for _, ps := range small {
+		sum := uint(0)
+		for _, p := range ps {
+			sum += p
+		}
+		recordUtils(out, rnd, ps, sum+6, false)
 	}
 	for it := 0; it < envInt("UTL_RANDOM", 12); it++ {
 		k := 1 + rnd.Intn(6)
